@@ -1,8 +1,9 @@
 (** Model of the producer side of a link: `End::next` (src/operator/end.rs) — choice of the
     receiving replica per downstream block for every `NextStrategy`, broadcast of control
-    elements — and `Batcher` (src/block/batcher.rs) for the `Fixed`/`Single` modes
-    (`Adaptive` = `Fixed` plus a flush whenever the clock says the delay elapsed; the flush
-    points are then an input).
+    elements — and `Batcher` (src/block/batcher.rs) for all three modes `Fixed`, `Adaptive` (the
+    engine's default) and `Single`. The clock read by the batchers is an INPUT of the model:
+    [t0] is the reading when the batchers are created (`End::setup`), [clock k] the reading
+    while `End::next` processes the k-th element it pulls (k = 0, 1, ..), in milliseconds.
 
     The senders of an `End` are sorted by endpoint and grouped by destination block
     (`setup_senders`); a group is the list of that block's replicas in coordinate order, so a
@@ -27,77 +28,112 @@ Definition targets (s : strategy) (hash rnd : N) (n : nat) : list nat :=
   end.
 
 (** ** Batcher *)
-Inductive batch_mode := BFixed (n : nat) | BSingle.
+Inductive batch_mode := BFixed (n : nat) | BAdaptive (n : nat) (delay : N) | BSingle.
+
+(** `BatchMode::max_size` *)
+Definition max_size (m : batch_mode) : nat :=
+  match m with BFixed n | BAdaptive n _ => n | BSingle => 1 end.
 
 Section Batcher.
   Context {A : Type}.
-  (** state: the buffer; output: the batches sent *)
-  Definition enqueue (m : batch_mode) (buf : list (elem A)) (e : elem A) : list (elem A) * list (list (elem A)) :=
+  (** state of one `Batcher`: `buffer` and `last_send`; output: the batches sent.
+      [now] is the reading of the clock during the call. *)
+  Definition bstate := (list (elem A) * N)%type.
+
+  (** `Batcher::flush`: nothing at all happens when the buffer is empty (in particular
+      `last_send` is not touched); otherwise one batch, and `last_send := clock()` *)
+  Definition flush (now : N) (bs : bstate) : bstate * list (list (elem A)) :=
+    match fst bs with [] => (bs, []) | _ => (([], now), [fst bs]) end.
+
+  (** `Batcher::enqueue`. `Adaptive(n, d)`: push, then flush when the buffer has reached [n]
+      elements or `clock() - last_send > d` (strict; `duration_since` saturates at 0 like
+      the subtraction of [N]). `Fixed`/`Single` never look at the clock.
+      Readings and [d] are in milliseconds. The real comparison is done in coarsetime ticks
+      (2^-32 s, each operand rounded down separately), which agrees with the comparison in
+      ms except possibly when `clock() - last_send` is EXACTLY [d] ms (then the real code may
+      already count the delay as elapsed); recorded runs avoid such readings. *)
+  Definition enqueue (m : batch_mode) (now : N) (bs : bstate) (e : elem A)
+    : bstate * list (list (elem A)) :=
     match m with
-    | BSingle => (buf, [[e]])
-    | BFixed n => let b := buf ++ [e] in if Nat.leb n (length b) then ([], [b]) else (b, [])
+    | BSingle => (bs, [[e]])
+    | BFixed n =>
+        let bs1 := (fst bs ++ [e], snd bs) in
+        if Nat.leb n (length (fst bs1)) then flush now bs1 else (bs1, [])
+    | BAdaptive n d =>
+        let bs1 := (fst bs ++ [e], snd bs) in
+        if Nat.leb n (length (fst bs1)) || N.ltb d (now - snd bs) then flush now bs1 else (bs1, [])
     end.
-  Definition flush (buf : list (elem A)) : list (elem A) * list (list (elem A)) :=
-    match buf with [] => ([], []) | _ => ([], [buf]) end.
 End Batcher.
 
 (** ** End over several downstream blocks, each with its number of replicas.
-    State: one buffer per (block, replica). An input element comes with the random index
-    and the hash the strategy would use for it. *)
+    State: the number of elements pulled so far and one batcher per (block, replica). An
+    input element comes with the random index and the hash the strategy would use for it. *)
 Section End.
   Context {A : Type}.
+  Variable (clock : nat -> N) (t0 : N).  (* clock reading for the k-th pulled element; at setup *)
   Variable (s : strategy) (m : batch_mode).
   Variable (blocks : list nat).          (* replicas of each downstream block *)
 
-  Definition estate := list (list (list (elem A))).      (* per block, per replica: buffer *)
+  Definition bstates := list (list (@bstate A)).         (* per block, per replica: batcher *)
+  Definition estate := (nat * bstates)%type.             (* elements pulled so far, batchers *)
   Definition eout := list (nat * nat * list (elem A)).   (* (block index, replica, batch) sent *)
 
-  Definition einit : estate := map (fun n => repeat [] n) blocks.
+  (** `End::setup`: every batcher is created with an empty buffer and `last_send = clock()` *)
+  Definition einit : estate := (0%nat, map (fun n => repeat ([], t0) n) blocks).
 
   Definition upd_nth {X} (i : nat) (f : X -> X) (l : list X) : list X :=
     map (fun '(j, x) => if Nat.eqb i j then f x else x) (combine (seq 0 (length l)) l).
 
   (** enqueue [e] towards replica [r] of block [b] *)
-  Definition send_to (st : estate) (b r : nat) (e : elem A) : estate * eout :=
-    let buf := nth r (nth b st []) [] in
-    let '(buf1, sent) := enqueue m buf e in
-    (upd_nth b (upd_nth r (fun _ => buf1)) st, map (fun batch => (b, r, batch)) sent).
+  Definition send_to (now : N) (st : bstates) (b r : nat) (e : elem A) : bstates * eout :=
+    let bs := nth r (nth b st []) ([], 0%N) in
+    let '(bs1, sent) := enqueue m now bs e in
+    (upd_nth b (upd_nth r (fun _ => bs1)) st, map (fun batch => (b, r, batch)) sent).
 
-  Fixpoint send_many (st : estate) (dests : list (nat * nat)) (e : elem A) : estate * eout :=
+  Fixpoint send_many (now : N) (st : bstates) (dests : list (nat * nat)) (e : elem A) : bstates * eout :=
     match dests with
     | [] => (st, [])
     | (b, r) :: ds =>
-        let '(st1, o1) := send_to st b r e in
-        let '(st2, o2) := send_many st1 ds e in
+        let '(st1, o1) := send_to now st b r e in
+        let '(st2, o2) := send_many now st1 ds e in
         (st2, o1 ++ o2)
     end.
 
   Definition all_dests : list (nat * nat) :=
     flat_map (fun '(b, n) => map (fun r => (b, r)) (seq 0 n)) (combine (seq 0 (length blocks)) blocks).
 
-  Definition flush_all (st : estate) : estate * eout :=
-    (map (fun per => map (fun _ => []) per) st,
+  (** `flush()` of every batcher, in endpoint order: only the batchers that had something to
+      send get a new `last_send` *)
+  Definition flush_all (now : N) (st : bstates) : bstates * eout :=
+    (map (fun per => map (fun bs => fst (flush now bs)) per) st,
      flat_map (fun '(b, per) =>
-       flat_map (fun '(r, buf) => match buf with [] => [] | _ => [(b, r, buf)] end)
+       flat_map (fun '(r, bs) => map (fun batch => (b, r, batch)) (snd (flush now bs)))
                 (combine (seq 0 (length per)) per))
        (combine (seq 0 (length st)) st)).
 
-  (** one element pulled from the chain, with the strategy's inputs for it *)
+  (** one element pulled from the chain, with the strategy's inputs for it; the clock is read
+      once per pulled element *)
   Definition end_step (st : estate) (x : elem A * N * N) : estate * eout :=
+    let '(k, bst) := st in
+    let now := clock k in
     let '(e, hash, rnd) := x in
-    match e with
-    | Item _ | Tst _ _ =>
-        send_many st (flat_map (fun '(b, n) => map (fun r => (b, r)) (targets s hash rnd n))
-                               (combine (seq 0 (length blocks)) blocks)) e
-    | Wm _ => send_many st all_dests e
-    | FAR =>
-        let '(st1, o1) := send_many st all_dests e in
-        let '(st2, o2) := flush_all st1 in (st2, o1 ++ o2)
-    | Terminate =>
-        let '(st1, o1) := send_many st all_dests e in
-        let '(st2, o2) := flush_all st1 in (st2, o1 ++ o2)      (* `Batcher::end` *)
-    | FlushBatch => flush_all st
-    end.
+    let '(bst', out) :=
+      match e with
+      | Item _ | Tst _ _ =>
+          send_many now bst (flat_map (fun '(b, n) => map (fun r => (b, r)) (targets s hash rnd n))
+                                      (combine (seq 0 (length blocks)) blocks)) e
+      | Wm _ => send_many now bst all_dests e
+      | FAR =>
+          let '(st1, o1) := send_many now bst all_dests e in
+          let '(st2, o2) := flush_all now st1 in (st2, o1 ++ o2)
+      | Terminate =>
+          let '(st1, o1) := send_many now bst all_dests e in
+          (* `Batcher::end`: the remaining buffer if non-empty; the batcher is consumed, so
+             its `last_send` no longer matters *)
+          let '(st2, o2) := flush_all now st1 in (st2, o1 ++ o2)
+      | FlushBatch => flush_all now bst
+      end in
+    ((S k, bst'), out).
 
   Definition end_machine : machine (elem A * N * N) (nat * nat * list (elem A)) :=
     {| mstate := estate; minit := einit; mstep := end_step |}.
